@@ -233,6 +233,10 @@ func addVirtualTableHelper(vTableMap map[string]struct{}, orgid int64) (bool, er
 }
 
 func AddVirtualTable(tname *string, orgid int64) error {
+	if !utils.IsValidIndexName(*tname) {
+		return fmt.Errorf("AddVirtualTable: invalid index name: %q", *tname)
+	}
+
 	vTableMap := make(map[string]struct{})
 	vTableMap[*tname] = struct{}{}
 
@@ -306,6 +310,10 @@ func AddVirtualTableAndMapping(tname *string, mapping *string, orgid int64) erro
 }
 
 func AddMapping(tname *string, mapping *string, orgid int64) error {
+	if !utils.IsValidIndexName(*tname) {
+		return fmt.Errorf("AddMapping: invalid index name: %q", *tname)
+	}
+
 	var sb1 strings.Builder
 	sb1.WriteString(VTableMappingsDir)
 	if orgid != 0 {
@@ -445,6 +453,10 @@ func GetAliasesAsArray(indexName string, orgid int64) ([]string, error) {
 }
 
 func GetAliases(indexName string, orgid int64) (map[string]bool, error) {
+	if !utils.IsValidIndexName(indexName) {
+		return map[string]bool{}, fmt.Errorf("GetAliases: invalid index name: %q", indexName)
+	}
+
 	var sb1 strings.Builder
 	sb1.WriteString(VTableAliasesDir)
 	if orgid != 0 {
@@ -480,6 +492,10 @@ func GetAliases(indexName string, orgid int64) (map[string]bool, error) {
 }
 
 func writeAliasFile(indexName *string, allnames map[string]bool, orgid int64) error {
+	if !utils.IsValidIndexName(*indexName) {
+		return fmt.Errorf("writeAliasFile: invalid index name: %q", *indexName)
+	}
+
 	var sb1 strings.Builder
 	sb1.WriteString(VTableAliasesDir)
 	if orgid != 0 {
@@ -641,6 +657,10 @@ func RemoveAliases(indexName string, aliases []string, orgid int64) error {
 }
 
 func removeAliasFile(indexName *string, orgid int64) error {
+	if !utils.IsValidIndexName(*indexName) {
+		return fmt.Errorf("removeAliasFile: invalid index name: %q", *indexName)
+	}
+
 	var sb1 strings.Builder
 	sb1.WriteString(VTableAliasesDir)
 	if orgid != 0 {
@@ -775,6 +795,10 @@ func isIndexExcluded(indexName string) bool {
 }
 
 func DeleteVirtualTable(tname *string, orgid int64) error {
+	if !utils.IsValidIndexName(*tname) {
+		return fmt.Errorf("DeleteVirtualTable: invalid index name: %q", *tname)
+	}
+
 	vTableRawFileAccessLock.Lock()
 	defer vTableRawFileAccessLock.Unlock()
 	vTableFileName := getVirtualTableFileName(orgid)
